@@ -702,7 +702,7 @@ func TestCheck(t *testing.T) {
 		if r.Thorough() && i%40 == 0 {
 			size = 1200 + plan.Intn(800)
 		}
-		specs = append(specs, spec{small[i%len(small)], 2 + (i/len(small)+i)%3, size, ""})
+		specs = append(specs, spec{small[i%len(small)], 2 + plan.Intn(3), size, ""})
 	}
 	special := []spec{{"far-behind", 2, 0, "quiet"}, {"far-behind", 2, 0, "lossy"}, {"iblt-overflow", 2, 0, "lossy"}, {"iblt-overflow", 3, 0, "quiet"}, {"iblt-overflow-late", 2, 0, "quiet"},
 		{"multi-page", 2, 120, "quiet"}, {"multi-page", 3, 200, "lossy"}, {"multi-page", 4, 300, "chaotic"}, {"multi-page", 4, 300, "quiet"}, {"multi-page", 3, 100, ""}, {"gossip-ahead", 2, 60, "quiet"}, {"gossip-ahead", 3, 60, "lossy"}, {"xor-collision", 2, 0, "chaotic"}}
